@@ -72,8 +72,11 @@ def render_fn(context, name, body, is_async=False):
     return lines, first
 
 
-def _check(rule_cls, key, content, cfg):
-    return rule_cls().check(mkctx("rust", content, {key: cfg}, path="/proj/src/lib.rs"))
+def _check(rule_cls, key, content, cfg, before=None):
+    rule = rule_cls()
+    if before is not None:      # the same rule object has just analysed another file (one rule object serves a whole run)
+        rule.check(mkctx("rust", before, {key: cfg}, path="/proj/src/earlier.rs"))
+    return rule.check(mkctx("rust", content, {key: cfg}, path="/proj/src/lib.rs"))
 
 
 def h_unwrap(ctx):
@@ -171,7 +174,11 @@ def h_blocking(ctx):
         risky = is_async and WRAPPERS[wrapper] is None
         expected.append((line_no, suffix, And(risky, Not(And(is_test, ait)), flags[option])))
     content = "\n".join(head + lines) + "\n"
-    vs = _check(BlockingAsyncRule, "blocking_async", content, dict(flags, allow_in_tests=ait, ignore=[]))
+    before = None
+    if call == "net-short" and ctx.flag("same_rule_object_saw_a_file_with_the_other_import_first"):
+        other_import = "use std::net::TcpStream;" if tokio_import else "use tokio::net::TcpStream;"
+        before = other_import + "\n\nasync fn earlier() {\n    let s = TcpStream::connect(\"127.0.0.1:80\");\n    drop(s);\n}\n"
+    vs = _check(BlockingAsyncRule, "blocking_async", content, dict(flags, allow_in_tests=ait, ignore=[]), before)
     _judge(ctx, vs, expected, "blocking-async.", content)
 
 
